@@ -58,6 +58,11 @@ class Sym:
                 if v:
                     self.env[v] = f"({l} {n.op[:-1]} {r})"
                     return self.env[v]
+                lhs = strip(n.ch[0])
+                if lhs.kind == "MemberExpr":
+                    lt = f"{T(lhs.ch[0])}{'->' if lhs.arrow else '.'}{lhs.name}"
+                    self.env[lt] = f"({l} {n.op[:-1]} {r})"
+                    return self.env[lt]
             if n.op in ("==", "!=", "+", "*", "&", "|") and r < l:
                 l, r = r, l
             return f"({l} {n.op} {r})"
@@ -80,13 +85,14 @@ class SymPath:
     """trace: ordered list of
          ('atom', text, truth, node_id)
          ('call', callee, [arg texts], full text, line, stmt_level)"""
-    __slots__ = ("trace", "outcome", "lines", "nodes")
+    __slots__ = ("trace", "outcome", "lines", "nodes", "env")
 
-    def __init__(self, trace, outcome, lines, nodes):
+    def __init__(self, trace, outcome, lines, nodes, env=None):
         self.trace = trace
         self.outcome = outcome    # ('RETURN', text) | ('STOP', tag) | ('END',)
         self.lines = lines
         self.nodes = nodes
+        self.env = env or {}      # symbolic values of locals/fields at the end
 
     @property
     def atoms(self):
@@ -143,7 +149,7 @@ def sym_paths(g, start=None, seed=None, stops=None, max_paths=60000,
         node = g.nodes[nid]
         if nid in stops:
             out.append(SymPath(trace, ("STOP", stops[nid]), lines,
-                               nodes + [nid]))
+                               nodes + [nid], dict(env)))
             return
         sym = Sym(env)
         ev2 = trace
@@ -166,7 +172,8 @@ def sym_paths(g, start=None, seed=None, stops=None, max_paths=60000,
         if node.kind == "return":
             rv = sym.text(node.ast.ch[0]) if node.ast.ch else ""
             out.append(SymPath(ev2, ("RETURN", rv),
-                               lines + [node.line], nodes + [nid]))
+                               lines + [node.line], nodes + [nid],
+                               dict(sym.env)))
             return
         ctext = None
         if node.kind == "stmt":
@@ -175,7 +182,8 @@ def sym_paths(g, start=None, seed=None, stops=None, max_paths=60000,
             ctext = sym.text(node.ast)
         succ = g.succ[nid]
         if not succ:
-            out.append(SymPath(ev2, ("END",), lines, nodes + [nid]))
+            out.append(SymPath(ev2, ("END",), lines, nodes + [nid],
+                               dict(sym.env)))
             return
         for lab, tgt in succ:
             cnt = counts.get(tgt, 0)
